@@ -47,6 +47,17 @@ def respondDisas (ws : List String) : Option String :=
       | .error e => match loadErrText theTables.core bytes e with
         | some t => some ("err " ++ hexOfString t)
         | none => some "panic"
+  | ["loadasmw", hx] =>
+    -- `dr::load_words` + `Module::assemble_into`: the same load and the same words through the other entry points
+    match unhex hx with
+    | none => some "bad-request"
+    | some bytes =>
+      if bytes.length % 4 != 0 then some "bad-request" else
+      match loadBytes theTables theLTables bytes with
+      | .ok m => some ("ok " ++ ",".intercalate ((moduleWords m).map toString))
+      | .error e => match loadErrText theTables.core bytes e with
+        | some t => some ("err " ++ hexOfString t)
+        | none => some "panic"
   | ["reloadhyp", hx] =>
     -- scope of `C01_reload_bytes`: accepted, traversal of the loaded module a grammar stream, 32-bit words
     match unhex hx with
